@@ -268,8 +268,13 @@ func filterMethodCall(blockContext antlr.Tree) {
 }
 
 func buildRestApiWithParameters(ctx *parser.MethodDeclarationContext) {
-	parameterList := ctx.FormalParameters().GetChild(1).(*parser.FormalParameterListContext)
-	formalParameter := parameterList.AllFormalParameter()
+	// "(Foo this)" / "(Foo this, int a)": the second child is a receiver parameter, the list (if any) follows
+	var formalParameter []parser.IFormalParameterContext
+	for _, child := range ctx.FormalParameters().GetChildren() {
+		if parameterList, ok := child.(*parser.FormalParameterListContext); ok {
+			formalParameter = parameterList.AllFormalParameter()
+		}
+	}
 	for _, param := range formalParameter {
 		paramContext := param.(*parser.FormalParameterContext)
 
